@@ -38,8 +38,14 @@ fn phase(s: &mut Src, loc: u8, child: u8) -> (Vec<Op>, Vec<Op>, usize) {
 }
 
 pub fn build(draws: &[u16], tier: Tier) -> Case {
+    build_mode(draws, tier, None)
+}
+
+/// `force`: the generation mode (0 = phase programs) instead of a drawn one
+pub fn build_mode(draws: &[u16], tier: Tier, force: Option<usize>) -> Case {
     let mut s = Src::new(draws);
     let mode = s.pick(8);
+    let mode = force.unwrap_or(mode);
     let sp = SyncParams { max_threads: 2, max_ops: 6, ..Default::default() };
     let mut c;
     match mode {
